@@ -28,6 +28,7 @@ pub fn run(ctx: &mut Ctx, prop: &str) {
         }
         "C08" => all(ctx, prop, c08_case),
         "C10" => all(ctx, prop, c10_case),
+        "C11" => all(ctx, prop, c11_case),
         "C19" => all(ctx, prop, c19_case),
         _ => {}
     }
@@ -147,6 +148,9 @@ fn c08_case(ctx: &mut Ctx, id: &str, rng: &mut Rng, spec: &Spec, w: Which) {
 }
 fn c10_case(ctx: &mut Ctx, id: &str, rng: &mut Rng, spec: &Spec, w: Which) {
     dispatch!(w, c10, ctx, id, rng, spec)
+}
+fn c11_case(ctx: &mut Ctx, id: &str, rng: &mut Rng, spec: &Spec, w: Which) {
+    dispatch!(w, c11, ctx, id, rng, spec)
 }
 fn c19_case(ctx: &mut Ctx, id: &str, rng: &mut Rng, spec: &Spec, w: Which) {
     dispatch!(w, c19, ctx, id, rng, spec)
@@ -297,6 +301,137 @@ fn c01<S: Lc>(ctx: &mut Ctx, id: &str, rng: &mut Rng, spec: &Spec) {
         }
     }
     ctx.rep.case(&describe(run), Some(format!("{}/{:?}/{}/{}/{}", S::NAME, spec.sizes, spec.wf, spec.sec, spec.kind)));
+}
+
+
+// ------------------------------------------------------------------------------------------------
+// C11: event logs of open / check / default batch_open / batch_check against the transcript model
+// ------------------------------------------------------------------------------------------------
+
+fn c11<S: Lc>(ctx: &mut Ctx, id: &str, rng: &mut Rng, spec: &Spec) {
+    use ark_crypto_primitives::sponge::CryptographicSponge;
+    use ark_poly::Polynomial;
+    use ark_poly_commit::{Evaluations, PolynomialCommitment, QuerySet};
+    let c = match new_case::<S>(ctx, id, rng, spec) {
+        Some(c) => c,
+        None => return,
+    };
+    let run = &c.run;
+    let k = run.comms.len();
+    let fail = |ctx: &mut Ctx, sig: &str, what: &str| {
+        ctx.rep.expect_fail(id, &format!("{}/{}", S::NAME, sig), what, replay::<S>(id, ctx.seed, spec, &describe(run)));
+    };
+    // ---- operation 1: `open` of all polynomials at one point (done by `new_case` on `run.pre`)
+    let req = state_args(comm_args(transcript_req::<S>(0, &run.pp, &run.comms, &run.open_log).arg("point", crate::wire::fes(&run.point)).arg("n", crate::wire::nat(k)), &run.comms, false), &run.states);
+    ask_transcript(ctx, &format!("{}/open", id), req, &run.open_log,
+        vec![("k".into(), Expect::Nat(run.proof.len())),
+             ("vs".into(), Expect::Raw(crate::wire::fess(&run.proof.iter().map(|p| p.opening.v.clone()).collect::<Vec<_>>()))),
+             ("leafidx".into(), Expect::Raw(crate::wire::Val::L(run.proof.iter().map(|p| crate::wire::nats(&p.opening.paths.iter().map(|q| q.leaf_index).collect::<Vec<_>>())).collect())))], None);
+    let check_req = |log: &LogSponge| {
+        let mut req = comm_args(transcript_req::<S>(1, &run.pp, &run.comms, log).arg("point", crate::wire::fes(&run.point)), &run.comms, false)
+            .arg("ncomm", crate::wire::nat(k))
+            .arg("nval", crate::wire::nat(run.values.len()))
+            .arg("nproof", crate::wire::nat(run.proof.len()));
+        for (i, v) in run.values.iter().enumerate() {
+            req = req.arg(&format!("value_{}", i), crate::wire::fe(v));
+        }
+        for (i, p) in run.proof.iter().enumerate() {
+            req = proof_args::<S>(req, &run.pp, i, p, &run.comms[i.min(k - 1)].root, false);
+        }
+        req
+    };
+    let (out, vlog) = check::<S>(&run.pp, &run.comms, &run.point, &run.values, &run.proof, &run.pre);
+    ask_transcript(ctx, &format!("{}/check", id), check_req(&vlog), &vlog, vec![("b".into(), Expect::Bool(out.accepted()))],
+        if let Out::Refuse(r) = &out { Some(r.clone()) } else { None });
+    if !out.accepted() {
+        fail(ctx, "history-rejected/open", &format!("honest proof not accepted on the prover's transcript: {:?}", out));
+    } else if run.open_log.log != vlog.log || run.open_log.probe() != vlog.probe() {
+        fail(ctx, "sponge-diverged/open", &format!("prover events [{}] differ from verifier events [{}] (or the next squeeze differs)", run.open_log.shape(), vlog.shape()));
+    }
+    // ---- the same proof checked on a sponge with another pre-state (displaced)
+    let mut other = LogSponge::fresh();
+    other.absorb(&Fr::from(77u64));
+    other.absorb(&Fr::rand(rng));
+    other.log.clear();
+    let (outd, dlog) = check::<S>(&run.pp, &run.comms, &run.point, &run.values, &run.proof, &other);
+    ask_transcript(ctx, &format!("{}/displaced", id), check_req(&dlog), &dlog, vec![("b".into(), Expect::Bool(outd.accepted()))],
+        if let Out::Refuse(r) = &outd { Some(r.clone()) } else { None });
+    if outd.accepted() && spec.wf {
+        fail(ctx, "accepted-on-other-transcript/pre-state", "proof accepted against a sponge with different prior absorbs (well-formedness check on)");
+    }
+    ctx.rep.count(&format!("{}/displaced-{}", S::NAME, match &outd { Out::Accept => "accepted", Out::Reject => "ok-false", Out::Refuse(_) => "refused" }));
+
+    // ---- operation 2 on the SAME sponges: default batch_open / batch_check over two point labels
+    let z2 = gen_point::<S>(rng, spec);
+    let mut qs: QuerySet<<S::P as Polynomial<Fr>>::Point> = QuerySet::new();
+    let mut evs: Evaluations<<S::P as Polynomial<Fr>>::Point, Fr> = Evaluations::new();
+    let mut qs_val = vec![];
+    let mut ev_val = vec![];
+    let mut order: Vec<(String, usize)> = vec![];
+    for (j, lp) in run.polys.iter().enumerate() {
+        let mut add = |pl: &str, z: &Vec<Fr>| {
+            let pt = S::point(z);
+            let v = lp.polynomial().evaluate(&pt);
+            qs.insert((lp.label().clone(), (pl.to_string(), pt.clone())));
+            evs.insert((lp.label().clone(), pt), v);
+            qs_val.push(crate::wire::Val::L(vec![crate::wire::label(lp.label()), crate::wire::label(pl), crate::wire::fes(z)]));
+            ev_val.push(crate::wire::Val::L(vec![crate::wire::label(lp.label()), crate::wire::fes(z), crate::wire::fe(&v)]));
+            order.push((pl.to_string(), j));
+        };
+        add("a", &run.point);
+        if j == 0 || j + 1 == k {
+            add("b", &z2);
+        }
+    }
+    order.sort_by(|x, y| (x.0.clone(), label(x.1)).cmp(&(y.0.clone(), label(y.1))));
+    let lcomms = real_comms::<S>(&run.comms);
+    let mut sp_p = run.open_log.clone();
+    sp_p.log.clear();
+    let mut sp_v = vlog.clone();
+    sp_v.log.clear();
+    let bproof = match guarded(|| S::PC::batch_open(&run.pp, run.polys.iter(), lcomms.iter(), &qs, &mut sp_p, run.real_states.iter(), None)) {
+        Ok(Ok(p)) => p,
+        Ok(Err(e)) => {
+            fail(ctx, "in-domain-refused/batch-open", &format!("batch_open refused an in-domain request: {}", err_kind(&e)));
+            return;
+        }
+        Err(a) => {
+            fail(ctx, "in-domain-refused/batch-open", &format!("batch_open aborted on an in-domain request: {}", a));
+            return;
+        }
+    };
+    let flat: Vec<MProof> = bproof.iter().flatten().map(|p| conv::<ark_poly_commit::linear_codes::LinCodePCProof<Fr, crate::generic::MTConfig>, MProof>(p)).collect();
+    let req = state_args(comm_args(transcript_req::<S>(2, &run.pp, &run.comms, &sp_p).arg("n", crate::wire::nat(k)), &run.comms, true), &run.states)
+        .arg("qs", crate::wire::Val::L(qs_val.clone()));
+    ask_transcript(ctx, &format!("{}/batch-open", id), req, &sp_p, vec![("groups".into(), Expect::Nats(bproof.iter().map(|g| g.len()).collect()))], None);
+    let mut vrng = rng.clone();
+    let bres = guarded(|| S::PC::batch_check(&run.pp, lcomms.iter(), &qs, &evs, &bproof, &mut sp_v, &mut vrng));
+    let (bacc, brefuse, bdetail) = match &bres {
+        Ok(Ok(b)) => (*b, None, format!("Ok({})", b)),
+        Ok(Err(e)) => (false, Some(err_kind(e)), format!("Err({})", err_kind(e))),
+        Err(a) => (false, Some(a.clone()), a.clone()),
+    };
+    if flat.len() == order.len() {
+        let mut req = comm_args(transcript_req::<S>(3, &run.pp, &run.comms, &sp_v), &run.comms, true)
+            .arg("ncomm", crate::wire::nat(k))
+            .arg("nproof", crate::wire::nat(flat.len()))
+            .arg("qs", crate::wire::Val::L(qs_val))
+            .arg("evals", crate::wire::Val::L(ev_val))
+            .arg("pk", crate::wire::nats(&bproof.iter().map(|g| g.len()).collect::<Vec<_>>()));
+        for (t, p) in flat.iter().enumerate() {
+            req = proof_args::<S>(req, &run.pp, t, p, &run.comms[order[t].1].root, true);
+        }
+        ask_transcript(ctx, &format!("{}/batch-check", id), req, &sp_v, vec![("b".into(), Expect::Bool(bacc))], brefuse);
+    } else {
+        fail(ctx, "batch-proof-count", &format!("batch_open returned {} proofs for {} (point label, polynomial) pairs", flat.len(), order.len()));
+    }
+    if !bacc {
+        fail(ctx, "history-rejected/batch", &format!("honest batch proof not accepted on the prover's transcript: {}", bdetail));
+    } else if sp_p.log != sp_v.log || sp_p.probe() != sp_v.probe() {
+        fail(ctx, "sponge-diverged/batch", &format!("prover events [{}] differ from verifier events [{}] (or the next squeeze differs)", sp_p.shape(), sp_v.shape()));
+    }
+    ctx.rep.case(&format!("{} lock-step: open + batch over 2 point labels, event logs vs model", describe(run)),
+        Some(format!("{}/c11/{:?}/{}/{}", S::NAME, spec.sizes, spec.wf, spec.sec)));
 }
 
 // ------------------------------------------------------------------------------------------------
